@@ -418,10 +418,7 @@ impl<T: RealNumber + ScalarOperand + AddAssign + SubAssign + MulAssign + DivAssi
     }
 
     fn softmax_mut(&mut self) {
-        let max = self
-            .iter()
-            .map(|x| x.abs())
-            .fold(T::neg_infinity(), |a, b| a.max(b));
+        let max = self.iter().fold(T::neg_infinity(), |a, b| a.max(*b));
         let mut z = T::zero();
         for r in 0..self.nrows() {
             for c in 0..self.ncols() {
